@@ -154,6 +154,8 @@ pub fn run(run: &mut Run) {
     run.assumptions = vec!["B for a full-canvas two-layer stack is taken from the library (C03/C17 check the arithmetic); mul_un8(x,255)=x".into(), "fully transparent pixels compare equal regardless of RGB".into()];
     let (lanes, cases) = if run.thorough() { (16, 20000) } else { (16, 4000) };
     run_tapes(run, lanes, cases, 1200, &check);
+    // thorough only: coverage-guided search over generator tapes with the same oracle
+    crate::fuzzstage::fuzz_tapes(run, 1200, 120);
 }
 
 pub fn replay(case: &serde_json::Value) -> CheckResult {
